@@ -1219,9 +1219,12 @@ func (s *UtxoStore) GetBindingHistoryDetail(tx mwdb.ReadTransaction, addrMgr *ke
 	return ret, nil
 }
 
-func (s *UtxoStore) ExistCreditFromTx(rtx mwdb.ReadTransaction, hash *wire.Hash) bool {
+func (s *UtxoStore) ExistCreditFromTx(rtx mwdb.ReadTransaction, hash *wire.Hash) (bool, error) {
 	nsCredits := rtx.FetchBucket(s.bucketMeta.nsCredits)
 	// GetByPrefix, unlike an iterator, also reflects the pending writes of an open transaction
 	entries, err := nsCredits.GetByPrefix(hash[:])
-	return err == nil && len(entries) > 0
+	if err != nil {
+		return false, err
+	}
+	return len(entries) > 0, nil
 }
